@@ -21,7 +21,7 @@ for f in glob.glob(os.path.join(out, "*")):
     else: shutil.copy(f, dst)
 m = {
     "id": "%s-m%s" % (ID, k),
-    "property": ID,
+    "property": ID[:3],
     "summary": meta.get("summary"),
     "mechanism": meta.get("mechanism"),
     "needs_to_manifest": meta.get("needs_to_manifest"),
